@@ -129,6 +129,12 @@ Fixpoint binop_syms (tbl : list (list N * N * prec)) (o : N) : option (list N) :
   | (ss, oid, _) :: r => if N.eqb o oid then Some ss else binop_syms r o
   end.
 
+Fixpoint binop_row (tbl : list (list N * N * prec)) (o : N) : option (list N * prec) :=
+  match tbl with
+  | [] => None
+  | (ss, oid, p) :: r => if N.eqb o oid then Some (ss, p) else binop_row r o
+  end.
+
 Definition un_sym (o : unop) : N :=
   match o with UPlus => S_PLUS | UMinus => S_MINUS | UNot => S_NOT | UExists => S_EXISTS | UDistinct => S_DISTINCT end.
 Definition un_prec (o : unop) : prec :=
@@ -146,30 +152,27 @@ Definition pp_name (m : option N) (n : N) : list item :=
   | None => [IT (TId n)]
   end.
 
-Fixpoint sep_by {A} (f : A -> list item) (sep : list item) (l : list A) : list item :=
-  match l with
-  | [] => []
-  | [x] => f x
-  | x :: r => f x ++ sep ++ sep_by f sep r
-  end.
+Section SepBy.
+  Context {A : Type} (f : A -> list item) (sep : list item).
+  Fixpoint sep_by (l : list A) : list item :=
+    match l with
+    | [] => []
+    | x :: r => match r with [] => f x | _ :: _ => f x ++ sep ++ sep_by r end
+    end.
+End SepBy.
 
-Fixpoint pp_type (paren : bool) (t : texpr) : list item :=
+Definition comma_sep {A} (f : A -> list item) (l : list A) : list item := sep_by f [S S_COMMA; ISp] l.
+
+Fixpoint pp_type (paren : bool) (t : texpr) {struct t} : list item :=
   match t with
   | TyName m n => pp_name m n
   | TyColl m n subs =>
       (if paren then [S S_LPAREN] else []) ++
-      pp_name m n ++ [S S_LANGBRACKET] ++
-      (fix go (l : list texpr) : list item :=
-         match l with
-         | [] => []
-         | [x] => pp_type false x
-         | x :: r => pp_type false x ++ [S S_COMMA; ISp] ++ go r
-         end) subs
-      ++ [S S_RANGBRACKET] ++
+      pp_name m n ++ [S S_LANGBRACKET] ++ comma_sep (fun x => pp_type false x) subs ++ [S S_RANGBRACKET] ++
       (if paren then [S S_RPAREN] else [])
   end.
 
-Definition pp_step (first_partial : bool) (s : pstep) : list item :=
+Definition pp_step (s : pstep) : list item :=
   match s with
   | SPtr false n => [S S_DOT; IT (TId n)]
   | SPtr true n => [S S_DOTBW; IT (TId n)]
@@ -177,7 +180,7 @@ Definition pp_step (first_partial : bool) (s : pstep) : list item :=
   | SIs t => [S S_LBRACKET; S S_IS; ISp] ++ pp_type false t ++ [S S_RBRACKET]
   end.
 
-Definition pp_steps (ss : list pstep) : list item := flat_map (pp_step false) ss.
+Definition pp_steps (ss : list pstep) : list item := flat_map pp_step ss.
 
 Definition const_tok (k : ckind) (v : N) : tok :=
   match k with
@@ -196,7 +199,23 @@ Definition head_bare (e : expr) : bool :=
 
 Definition sym_items (ss : list N) : list item := sep_by (fun s => [S s]) [ISp] ss.
 
-Fixpoint pp_items (e : expr) : list item :=
+Definition op_syms (o : N) : list N := match binop_syms binop_table o with Some ss => ss | None => [] end.
+
+Definition pp_field (f : expr -> list item) (p : N * expr) : list item :=
+  let (n, x) := p in [IT (TId n); ISp; S S_ASSIGN; ISp] ++ f x.
+
+Definition pp_opt (f : expr -> list item) (o : option expr) : list item :=
+  match o with Some x => f x | None => [] end.
+
+Definition pp_ix (f : expr -> list item) (ix : bool * option expr * option expr) : list item :=
+  let '(sl, a, b) := ix in
+  [S S_LBRACKET] ++ pp_opt f a ++ (if sl then [S S_COLON] ++ pp_opt f b else []) ++ [S S_RBRACKET].
+
+Definition pp_el (f : expr -> list item) (el : N * option expr) : list item :=
+  let (n, c) := el in
+  [IT (TId n)] ++ match c with Some x => [ISp; S S_ASSIGN; ISp] ++ f x | None => [] end.
+
+Fixpoint pp_items (e : expr) {struct e} : list item :=
   match e with
   | EConst k nneg v => repeat (S S_MINUS) nneg ++ [IT (const_tok k v)]
   | EParam i => [IT (TParam i)]
@@ -208,9 +227,7 @@ Fixpoint pp_items (e : expr) : list item :=
       if un_word o then [S (un_sym o); ISp; S S_LPAREN] ++ pp_items x ++ [S S_RPAREN]
       else [S (un_sym o)] ++ pp_items x
   | EBin o l r =>
-      [S S_LPAREN] ++ pp_items l ++ [ISp] ++
-      sym_items (match binop_syms binop_table o with Some ss => ss | None => [] end) ++
-      [ISp] ++ pp_items r ++ [S S_RPAREN]
+      [S S_LPAREN] ++ pp_items l ++ [ISp] ++ sym_items (op_syms o) ++ [ISp] ++ pp_items r ++ [S S_RPAREN]
   | EIs neg l t =>
       [S S_LPAREN] ++ pp_items l ++ [ISp; S S_IS] ++ (if neg then [ISp; S S_NOT] else []) ++ [ISp] ++
       pp_type true t ++ [S S_RPAREN]
@@ -220,66 +237,22 @@ Fixpoint pp_items (e : expr) : list item :=
       [S S_LPAREN; S S_IF; ISp] ++ pp_items c ++ [ISp; S S_THEN; ISp] ++ pp_items a ++
       [ISp; S S_ELSE; ISp] ++ pp_items b ++ [S S_RPAREN]
   | ESeq k es =>
-      let body := (fix go (l : list expr) : list item :=
-                     match l with
-                     | [] => []
-                     | [x] => pp_items x
-                     | x :: r => pp_items x ++ [S S_COMMA; ISp] ++ go r
-                     end) es in
       match k with
-      | QTuple => [S S_LPAREN] ++ body ++ (match es with [_] => [S S_COMMA] | _ => [] end) ++ [S S_RPAREN]
-      | QArray => [S S_LBRACKET] ++ body ++ [S S_RBRACKET]
-      | QSet => [S S_LBRACE] ++ body ++ [S S_RBRACE]
+      | QTuple => [S S_LPAREN] ++ comma_sep (fun x => pp_items x) es ++ (match es with [_] => [S S_COMMA] | _ => [] end) ++ [S S_RPAREN]
+      | QArray => [S S_LBRACKET] ++ comma_sep (fun x => pp_items x) es ++ [S S_RBRACKET]
+      | QSet => [S S_LBRACE] ++ comma_sep (fun x => pp_items x) es ++ [S S_RBRACE]
       end
-  | ENamedTuple fs =>
-      [S S_LPAREN; ISp] ++
-      (fix go (l : list (N * expr)) : list item :=
-         match l with
-         | [] => []
-         | [(n, x)] => [IT (TId n); ISp; S S_ASSIGN; ISp] ++ pp_items x
-         | (n, x) :: r => [IT (TId n); ISp; S S_ASSIGN; ISp] ++ pp_items x ++ [S S_COMMA; ISp] ++ go r
-         end) fs
-      ++ [ISp; S S_RPAREN]
+  | ENamedTuple fs => [S S_LPAREN; ISp] ++ comma_sep (pp_field (fun x => pp_items x)) fs ++ [ISp; S S_RPAREN]
   | ECall m f args kw =>
-      pp_name m f ++ [S S_LPAREN] ++
-      (fix go (l : list expr) : list item :=
-         match l with
-         | [] => []
-         | [x] => pp_items x
-         | x :: r => pp_items x ++ [S S_COMMA; ISp] ++ go r
-         end) args
-      ++ (match args, kw with _ :: _, _ :: _ => [S S_COMMA; ISp] | _, _ => [] end) ++
-      (fix go (l : list (N * expr)) : list item :=
-         match l with
-         | [] => []
-         | [(n, x)] => [IT (TId n); ISp; S S_ASSIGN; ISp] ++ pp_items x
-         | (n, x) :: r => [IT (TId n); ISp; S S_ASSIGN; ISp] ++ pp_items x ++ [S S_COMMA; ISp] ++ go r
-         end) kw
-      ++ [S S_RPAREN]
+      pp_name m f ++ [S S_LPAREN] ++ comma_sep (fun x => pp_items x) args ++
+      (match args, kw with _ :: _, _ :: _ => [S S_COMMA; ISp] | _, _ => [] end) ++
+      comma_sep (pp_field (fun x => pp_items x)) kw ++ [S S_RPAREN]
   | ECast opt t x =>
       [S S_LANGBRACKET] ++ (if opt then [S S_OPTIONAL; ISp] else []) ++ pp_type false t ++ [S S_RANGBRACKET] ++ pp_items x
-  | EIndir x ixs =>
-      [S S_LPAREN] ++ pp_items x ++ [S S_RPAREN] ++
-      (fix go (l : list (bool * option expr * option expr)) : list item :=
-         match l with
-         | [] => []
-         | (sl, a, b) :: r =>
-             [S S_LBRACKET] ++ (match a with Some x => pp_items x | None => [] end) ++
-             (if sl then [S S_COLON] ++ (match b with Some x => pp_items x | None => [] end) else []) ++
-             [S S_RBRACKET] ++ go r
-         end) ixs
+  | EIndir x ixs => [S S_LPAREN] ++ pp_items x ++ [S S_RPAREN] ++ flat_map (pp_ix (fun x => pp_items x)) ixs
   | EDetached x => [S S_DETACHED; ISp] ++ pp_items x
   | EGlobal m n => [S S_GLOBAL; ISp] ++ pp_name m n
-  | EShape x els =>
-      pp_items x ++ [ISp; S S_LBRACE; ISp] ++
-      (fix go (l : list (N * option expr)) : list item :=
-         match l with
-         | [] => []
-         | (n, c) :: r =>
-             [IT (TId n)] ++ (match c with Some x => [ISp; S S_ASSIGN; ISp] ++ pp_items x | None => [] end) ++
-             (match r with [] => [] | _ => [S S_COMMA; ISp] end) ++ go r
-         end) els
-      ++ [ISp; S S_RBRACE]
+  | EShape x els => pp_items x ++ [ISp; S S_LBRACE; ISp] ++ comma_sep (pp_el (fun x => pp_items x)) els ++ [ISp; S S_RBRACE]
   end.
 
 Definition pp (e : expr) : list tok := toks (pp_items e).
@@ -359,6 +332,15 @@ with parse_types (fuel : nat) (ts : list tok) {struct fuel} : option (list texpr
       | Some (t, r) => Some ([t], r)
       | None => None
       end
+  end.
+
+Definition parse_type_is (fuel : nat) (ts : list tok) : option (texpr * list tok) :=
+  match ts with
+  | TSym _ :: _ => parse_type fuel ts
+  | _ => match parse_name ts with
+         | Some (m, n, r) => Some (TyName m n, r)
+         | None => None
+         end
   end.
 
 Definition expect (s : N) (ts : list tok) : option (list tok) :=
@@ -722,7 +704,8 @@ with parse_loop (fuel : nat) (c : ctx) (lhs : expr) (ts : list tok) {struct fuel
             match decide c (prec_of s) with
             | DShift =>
                 let neg := starts S_NOT r in
-                match parse_type f (if neg then tl r else r) with
+                (* TypeExpr after IS: a simple name or a parenthesised type; `T < ...` there is a comparison *)
+                match parse_type_is f (if neg then tl r else r) with
                 | Some (t, r2) => parse_loop f c (EIs neg lhs t) r2
                 | None => None
                 end
@@ -865,11 +848,9 @@ Fixpoint wf (e : expr) : bool :=
       match o with UMinus => negb (is_numconst x) | _ => true end
   | EBin o l r =>
       wf l && wf r &&
-      match binop_lookup binop_table (sym_toks (match binop_syms binop_table o with Some ss => ss | None => [] end)) with
-      | Some (o', p, []) =>
-          N.eqb o o' && rspine l (sym_toks (match binop_syms binop_table o with Some ss => ss | None => [] end)) &&
-          tight (Some p) r
-      | _ => false
+      match binop_row binop_table o with
+      | Some (ss, p) => rspine l (sym_toks ss) && tight (Some p) r
+      | None => false
       end
   | EIs neg l t => wf l && wf_type t && rspine l [TSym S_IS]
   | EIf true c a b => wf c && wf a && wf b && rspine a [TSym S_IF] && tight (Some p_ifelse) b
